@@ -41,7 +41,7 @@ type C01Case struct {
 // counter positions of a long-lived client: around 10^6 (where %v starts to print a float64 with an exponent), 2^31, 2^32 and below 2^53
 var c01IDBases = []int64{0, 0, 0, 999990, 999999, 1000000, 123456789, 1<<31 - 20, 1<<32 - 20, 99999999999999, 1<<53 - 2000}
 
-var c01IDPool = []string{`1`, `"1"`, `0`, `""`, `-7`, `2147483648`, `9007199254740991`, `9007199254740992`, `"a"`, `"id-é"`, `"💥"`, `"x y"`, `"%d"`, `"1e3"`, `1000000`, `12345678`, `"null"`, `"true"`}
+var c01IDPool = []string{`1`, `"1"`, `0`, `""`, `-7`, `2147483648`, `9007199254740991`, `9007199254740992`, `"a"`, `"id-é"`, `"💥"`, `"x y"`, `"%d"`, `"1e3"`, `1000000`, `12345678`, `"null"`, `"true"`, `"a\ndata: x"`, `"x\r\ny"`, `"a\n\nb"`}
 
 func genC01(t *rapid.T) C01Case {
 	c := C01Case{Mode: Mode(rapid.IntRange(0, int(NumModes)-1).Draw(t, "mode")), Layer: rapid.SampledFrom([]string{"lib", "raw"}).Draw(t, "layer")}
